@@ -134,3 +134,46 @@ def tool(name, args, variant="plain", cwd=None, timeout=120, env=None, wrapper=(
 def crashed(run):
     """Signal death or sanitizer exit code."""
     return run.rc < 0 and run.rc != -999 or run.rc in (97, 98, 99) or run.rc >= 128
+
+
+import re as _re
+import signal as _signal
+
+
+def _short_fn(sig):
+    """'virtual void abigail::comparison::default_reporter::report(const abigail::comparison::qualified_type_diff&, ...) const'
+    -> 'default_reporter::report(qualified_type_diff)'"""
+    m = _re.search(r"([\w:~<>]+)\s*\((.*)\)", sig)
+    if not m:
+        return sig.strip()[:80]
+    name = m.group(1).split("::")
+    name = "::".join(name[-2:]) if len(name) >= 2 else name[-1]
+    first = m.group(2).split(",")[0]
+    ids = _re.findall(r"[A-Za-z_]\w*", first)
+    ids = [i for i in ids if i not in ("const", "abigail", "ir", "comparison", "std", "xml_reader", "dwarf_reader",
+                                       "suppr", "ini", "tools_utils", "shared_ptr", "__cxx11", "basic_string")]
+    return "%s(%s)" % (name, ids[0] if ids else "")
+
+
+def crash_key(run):
+    """Stable key of a crash: assertion site (file + function), sanitizer error kind + first libabigail frame, or signal."""
+    err = run.etext()
+    m = _re.search(r"VERIF-ASSERT site=(\S+?):(\S+) expr=(.*?) line=\d+", err)
+    if m:
+        return "assert:%s:%s:%s" % (os.path.basename(m.group(1)), m.group(2), m.group(3).strip()[:60])
+    m = _re.search(r"([\w./-]+\.(?:cc|h)):\d+: (.*?): Assertion `(.*?)' failed", err)
+    if m:
+        return "assert:%s:%s" % (os.path.basename(m.group(1)), _short_fn(m.group(2)))
+    m = _re.search(r"ERROR: AddressSanitizer: ([\w-]+)", err)
+    if m:
+        fr = _re.search(r"#\d+ 0x[0-9a-f]+ in (abigail::[^\s(]+)", err)
+        return "asan:%s:%s" % (m.group(1), fr.group(1) if fr else "?")
+    m = _re.search(r"([\w./-]+):(\d+):\d+: runtime error: (.*)", err)
+    if m:
+        return "ubsan:%s:%s" % (os.path.basename(m.group(1)), _re.sub(r"0x[0-9a-f]+|\d+", "N", m.group(3))[:60])
+    if run.rc < 0 and run.rc != -999:
+        try:
+            return "signal:" + _signal.Signals(-run.rc).name
+        except ValueError:
+            return "signal:%d" % -run.rc
+    return "exit:%d" % run.rc
